@@ -2,6 +2,7 @@ use crate::core::Ctx;
 
 pub mod c01;
 pub mod c02;
+pub mod c03;
 pub mod c05;
 pub mod c06;
 pub mod c07;
@@ -10,23 +11,27 @@ pub mod c09;
 pub mod c13;
 pub mod c14;
 pub mod c10;
+pub mod c11;
 pub mod c12;
 pub mod c15;
 pub mod c16;
 pub mod c17;
 pub mod c18;
+pub mod c19;
 pub mod c20;
 
 pub fn lookup(prop: &str) -> Option<fn(&Ctx)> {
     Some(match prop {
         "C01" => c01::run,
         "C02" => c02::run,
+        "C03" => c03::run,
         "C05" => c05::run,
         "C06" => c06::run,
         "C07" => c07::run,
         "C08" => c08::run,
         "C09" => c09::run,
         "C10" => c10::run,
+        "C11" => c11::run,
         "C12" => c12::run,
         "C13" => c13::run,
         "C14" => c14::run,
@@ -34,6 +39,7 @@ pub fn lookup(prop: &str) -> Option<fn(&Ctx)> {
         "C16" => c16::run,
         "C17" => c17::run,
         "C18" => c18::run,
+        "C19" => c19::run,
         "C20" => c20::run,
         _ => return None,
     })
@@ -49,6 +55,7 @@ pub fn one(args: &[String]) -> i32 {
             c01::one_pump(name, d)
         }
         Some("c02") => c02::zygote(),
+        Some("c19-silent") => c19::one_silent(),
         Some("compile") => {
             // mc --one compile <scss|sass|css> <source> [compressed]
             let syn = match args.get(1).map(|s| s.as_str()) {
